@@ -1,5 +1,6 @@
 #![allow(dead_code)]
 mod adapter;
+mod basic;
 mod checks;
 mod driver;
 mod faulty;
